@@ -186,6 +186,109 @@ def family(rng, n):
     return cases
 
 
+# ---------------------------------------------------------------------------------------------------------------------
+# CUSTOM IDS (implementation monitor, both engines): a compound / parallel state that declares a custom `id` next to `onDone`.
+# The abstract machines of the correspondence name states by their dotted paths only; here the library is driven directly and the
+# property is counted: onDone taken exactly once per completion, never while a region is not final.  (Fifth-round seeded change
+# C10-D named the completion event after the custom id in the parser and in the asyncio engine's copy of _check_and_fire_on_done,
+# but not in the sync engine's: onDone was never taken there.)
+def custom_id_cases(rng, n):
+    return [dict(engine=("sync", "async")[i % 2], parallel=rng.random() < 0.5, custom=rng.choice(["box", "the.box", "m.other", None]),
+                 nested=rng.random() < 0.4, order=rng.choice([("A", "B"), ("B", "A"), ("A", "A", "B"), ("B", "X", "A")]),
+                 recomplete=rng.random() < 0.5) for i in range(n)]
+
+
+def run_custom_id(case):
+    import asyncio
+    from xstate_statemachine import create_machine, Interpreter, SyncInterpreter, MachineLogic
+    log = []
+
+    def mark(tag):
+        def act(interp, ctx, ev, ad):
+            log.append(tag)
+        return act
+    if case["parallel"]:
+        box = {"type": "parallel", "states": {
+            "r1": {"initial": "w", "states": {"w": {"on": {"A": "f"}}, "f": {"type": "final"}}},
+            "r2": {"initial": "w", "states": {"w": {"on": {"B": "f"}}, "f": {"type": "final"}}}}}
+    else:
+        box = {"initial": "w", "states": {"w": {"on": {"A": "w2"}}, "w2": {"on": {"B": "f"}}, "f": {"type": "final"}}}
+    if case["custom"]:
+        box["id"] = case["custom"]
+    box["onDone"] = {"target": "after", "actions": ["onDoneTaken"]}
+    after = {"on": {"AGAIN": "box"}}
+    if case["nested"]:
+        cfg = {"id": "m", "initial": "outer", "states": {"outer": {"initial": "box", "states": {"box": box, "after": after}}}}
+    else:
+        cfg = {"id": "m", "initial": "box", "states": {"box": box, "after": after}}
+    logic = MachineLogic(actions={"onDoneTaken": mark("onDone")})
+    events = list(case["order"]) + (["AGAIN"] + [e for e in case["order"]] if case["recomplete"] else [])
+    res = dict(case=case, events=events)
+    trace = []
+    try:
+        if case["engine"] == "sync":
+            it = SyncInterpreter(create_machine(cfg, logic=logic))
+            it.start()
+            for e in events:
+                it.send(e)
+                trace.append((e, len(log), sorted(it.current_state_ids)))
+            it.stop()
+        else:
+            async def main():
+                it = Interpreter(create_machine(cfg, logic=logic))
+                await it.start()
+                for e in events:
+                    await it.send(e)
+                    for _ in range(30):
+                        await asyncio.sleep(0)
+                    trace.append((e, len(log), sorted(it.current_state_ids)))
+                await it.stop()
+            asyncio.run(asyncio.wait_for(main(), 20))
+    except Exception as exc:
+        res["harness_exc"] = repr(exc)
+    res["trace"] = trace
+    return res
+
+
+def custom_id_monitor(res):
+    if "harness_exc" in res:
+        return []
+    case = res["case"]
+    # the declarative count: the box completes when A and B have both been seen since it was (re-)entered (compound: A then B)
+    seen, want, inside = set(), 0, True
+    out = []
+    for (e, n, cfg) in res["trace"]:
+        if e == "AGAIN" and not inside:
+            inside, seen = True, set()
+        elif inside and e in ("A", "B"):
+            if case["parallel"] or e == "A" or "A" in seen:
+                seen.add(e)
+            if seen == {"A", "B"}:
+                want += 1
+                inside = False
+        if n != want:
+            out.append(("state `box`%s (%s, %s engine): after the events %s its onDone transition has been taken %d time(s), expected %d "
+                        "(configuration %s)" % (" with custom id %r" % case["custom"] if case["custom"] else "", "parallel" if case["parallel"] else "compound",
+                                                case["engine"], [t[0] for t in res["trace"][:res["trace"].index((e, n, cfg)) + 1]], n, want, cfg), None))
+            return out
+    return out
+
+
+def custom_id_component(cases):
+    from concurrent.futures import ProcessPoolExecutor
+    with ProcessPoolExecutor(max_workers=12) as ex:
+        results = list(ex.map(run_custom_id, cases, chunksize=4))
+    fails, stats = [], dict(cases=len(cases), judged=0, with_custom_id=0)
+    for case, res in zip(cases, results):
+        if "harness_exc" in res:
+            continue
+        stats["judged"] += 1
+        stats["with_custom_id"] += bool(case["custom"])
+        for what, sig in custom_id_monitor(res):
+            fails.append(dict(case=dict(custom_id=True, **case), what=what, signature=sig))
+    return fails, stats
+
+
 def run(rep, ctx):
     rng = random.Random(ctx["seed"] * 7919 + 10)
     big = ctx["tier"] == "thorough"
@@ -206,8 +309,19 @@ def run(rep, ctx):
         _, fails, _ = common.run_macro_property(rep, ctx, "c10_search", family(random.Random(ctx["seed"] + 101), 400), monitor,
                                                 "search: 400 more completion machines")
         return fails
+    cfails, cstats = custom_id_component(custom_id_cases(rng, 160 if ctx["tier"] == "thorough" else 48))
+    fail_all += cfails
+    rep.coverage.setdefault("components", {})["monitor: onDone on states with a custom id, counted per completion (implementation only, both engines)"] = cstats
     core.decide(rep, ctx["proof"], dis_all, fail_all, search)
 
 
 def replay(payload):
+    case = payload.get("case") or {}
+    if case.get("custom_id"):
+        res = run_custom_id({k: (tuple(v) if k == "order" else v) for k, v in case.items() if k != "custom_id"})
+        print(res)
+        bad = custom_id_monitor(res)
+        for b in bad:
+            print("MONITOR:", b[0])
+        return 1 if bad else 0
     return common.replay_macro(payload, monitor)
